@@ -347,6 +347,53 @@ def w6_scalars_forwarded_unchanged(prog):
     return r
 
 
+@rule('W7', props=['C04', 'C05', 'C11', 'C17', 'C01', 'C06'], floor={'all': 50, 'default': 38}, configs=('all', 'default'))
+def w7_rebuild_after_growth(prog):
+    """Within one step, a column that is rebuilt a second time (Vec::from_raw_parts on the same slot) after the
+    first rebuilt Vec pushed or removed an element must be rebuilt with the length that accounts for it: the
+    step's `length` parameter describes the column *before* the step. Rebuilding with the stale `length` after a
+    push (e.g. to "roll back" the pushed value with pop()) operates on the previous row's value instead."""
+    r = Result()
+    DELTA = {'push': 1, 'pop': -1, 'swap_remove': -1, 'remove': -1, 'insert': 1}
+    for fn, imp in walk_fns(prog):
+        it, paths = traces(prog, fn)
+        key = fn_key(fn, imp)
+        r.inst(key, tag=fn.name)
+        done = False
+        for p in paths:
+            if done:
+                break
+            first = {}     # slot -> (obj, len)
+            net = {}       # slot -> net growth or None (unknown)
+            owner = {}     # vec obj -> slot
+            for e in p.events:
+                if e['k'] == 'from_raw' and e.get('what') == 'vec':
+                    ptr = e['ptr']
+                    while ptr[0] in ('tptr',):
+                        ptr = ptr[1]
+                    if ptr[0] != 'elemf':
+                        continue
+                    slot = tuple(ptr[1:4])
+                    if slot in first:
+                        n = net.get(slot, 0)
+                        if n not in (0, None) and e['len'] == first[slot][1]:
+                            r.viol('W7', key + '/stale-length', fn.loc(e['ln']),
+                                   'the column is rebuilt with the step\'s `length` although %d element(s) were %s through an earlier rebuild in this step: the Vec\'s last element is not the one just written' % (abs(n), 'pushed' if n > 0 else 'removed'), tag=fn.name)
+                            done = True
+                            break
+                    else:
+                        first[slot] = (e['obj'], e['len'])
+                    owner[e['obj']] = slot
+                elif e['k'] == 'vec_method' and e['vec'][0] == 'vec' and e['vec'][1] in owner:
+                    slot = owner[e['vec'][1]]
+                    if e['name'] in DELTA:
+                        if net.get(slot, 0) is not None:
+                            net[slot] = net.get(slot, 0) + DELTA[e['name']]
+                    elif e['name'] in ('extend', 'append', 'clear', 'truncate', 'extend_from_slice', 'clone_from', 'drain', 'retain', 'resize', 'set_len', 'split_off', 'dedup'):
+                        net[slot] = None
+    return r
+
+
 @rule('W5', props=['C03', 'C04', 'C05', 'C09', 'C10', 'C16', 'C06'], floor={'all': 30, 'default': 23}, configs=('all', 'default'))
 def w5_length_provenance(prog):
     """Every Vec/slice rebuilt from column 0 uses, as its length, the step's own length parameter that
